@@ -69,7 +69,7 @@ def run(chk):
     ]
     chk.cov["rule"] = ("paired histories: the same scenario at rate 1 and at rate k in {1e-16,1e-15,1e-12,1e-8,1e-4,10,1e3} (velocity gradient x k, times / k, "
                        "pathline x(k t)); flows incl. time- and position-dependent; regimes 4, 6 and the null regimes; stored textures and returned F compared "
-                       "(alarm at the solver tolerance 1e-6, maximum reported); enstatite in both dislocation regimes at k = 1e-16, 2^-50, 1e-15 (absolute slip threshold 1e-15); flows whose samples at start / midpoint / end of every update coincide exactly at rate 1 "
+                       "(alarm at the solver tolerance 1e-6, maximum reported); caller-owned velocity-gradient storage (same array object / view of a table / read-only / Fortran-ordered, scale != 1); enstatite in both dislocation regimes at k = 1e-16, 2^-50, 1e-15 (absolute slip threshold 1e-15); flows whose samples at start / midpoint / end of every update coincide exactly at rate 1 "
                        "(cosine periods, pulses, shear zones along the pathline, closed pathlines) at three more rates, preferring rates whose rounded partition breaks "
                        "the coincidence; every update also trace-validated against the model; non-trivial = texture changed")
     bad, mon = [], []
@@ -97,6 +97,29 @@ def run(chk):
                     hk = c01.run_history(rec, dict(sc, rate=float(k)))
                     c01.validate_traces(chk, hk, bad)
                     hist[str(k)] = hist.get(str(k), 0) + 1
+                    if hk["fails"]:
+                        mon += [(sc, k, m) for _, m in hk["fails"]]
+                        continue
+                    d, msg = compare(h1, hk)
+                    worst = max(worst, d)
+                    if msg or d > TOL:
+                        mon.append((sc, k, msg or f"textures / deformation gradient at rate k = {k:g} differ from rate 1 by {d:.3e} (> {TOL:g})"))
+            # the velocity gradient handed back as caller-owned storage (the same array object, a view of a table, read-only,
+            # Fortran-ordered) with a strain-rate scale != 1 at every rate: nothing may be written into it (own PRNG stream)
+            rngs = np.random.default_rng([chk.seed, 0xC05E])
+            sh = chk.cov.setdefault("caller_owned_L_pairs", {})
+            for j, lk in enumerate(["shared"] + MT.L_PRESENTATIONS if chk.tier != "quick" else ["shared", MT.L_PRESENTATIONS[int(rngs.integers(3))]]):
+                sc = MT.scenario(rngs, regime=int((4, 6)[j % 2]), n=int(rngs.integers(3, 10)), lkind=lk, nupd=int(rngs.integers(1, 3)))
+                h1 = c01.run_history(rec, dict(sc, rate=1.0))
+                c01.validate_traces(chk, h1, bad)
+                if h1["fails"]:
+                    mon += [(sc, 1.0, m) for _, m in h1["fails"]]
+                    continue
+                for k in (KS[j % 3], KS[-1 - (j % 2)]):
+                    hk = c01.run_history(rec, dict(sc, rate=float(k)))
+                    c01.validate_traces(chk, hk, bad)
+                    hist[str(k)] = hist.get(str(k), 0) + 1
+                    sh[lk] = sh.get(lk, 0) + 1
                     if hk["fails"]:
                         mon += [(sc, k, m) for _, m in hk["fails"]]
                         continue
